@@ -364,12 +364,26 @@ def check_sites(ctx, F):
                 arg = e['args'][0]
                 if not sym.contains(arg, lambda x: isinstance(x, tuple) and x and x[0] == 'call' and isinstance(x[1], str) and x[1].startswith(USER_CODE)):
                     continue
-                ops = [arg] + ([arg[2], arg[3]] if arg[0] == 'bin' and arg[1].split('.')[0] == 'Sub' else [])
                 preds = r.preds[:rules.preds_before(r, i)]
-                if not any(any(sym.contains(t, lambda x, o=o: x == o) for o in ops) for t, v, _ in preds):
+                # "examined" is not enough (the search of the decoder view compares both cumulatives with the quantile and is still
+                # fooled by a cdf above 1 at full precision): the path must *prove* the difference non-zero - a dominating
+                # inequality / strict order between the two operands (difference bounds), or an explicit non-zero test of the value
+                proven = False
+                if arg[0] == 'bin' and arg[1].split('.')[0] == 'Sub':
+                    d = dbmmod.DBM()
+                    dbmmod.harvest(d, preds)
+                    R_, L_ = arg[2], arg[3]
+                    proven = d.entails_le(L_, R_, strict=True) or d.entails_le(R_, L_, strict=True)
+                    for t, v, _ in preds:
+                        if t[0] == 'bin' and t[1] in ('Eq', 'Ne') and {t[2], t[3]} == {R_, L_} and ((t[1] == 'Eq' and not v) or (t[1] == 'Ne' and v)):
+                            proven = True
+                for t, v, _ in preds:
+                    if t[0] == 'bin' and t[1] in ('Eq', 'Ne') and arg in (t[2], t[3]) and ((t[1] == 'Eq' and not v) or (t[1] == 'Ne' and v)):
+                        proven = True
+                if not proven:
                     unexamined = sym.show(arg)[:120]
             if unexamined:
-                ctx.bad('R8', role, b.defpath, 'USER-DATA: the value declared non-zero (%s) is computed from the result of user code (%s...) and no predicate on the path examines it or its operands; '
+                ctx.bad('R8', role, b.defpath, 'USER-DATA: the value declared non-zero (%s) is computed from the result of user code (%s...) and no predicate on the path proves it non-zero (the wrap-around at PRECISION == BITS and a non-monotone or out-of-range cdf defeat the search invariants); '
                         'sibling views of the same quantity convert it with the checked into_nonzero().expect(..). A distribution whose cdf is not monotone makes it zero: undefined behaviour from safe code' % (unexamined, USER_CODE[0]),
                         key=key, loc=loc)
                 continue
